@@ -274,6 +274,7 @@ def c02(ctx):
         t, aw, res = exchange(rq, wk, ap)
         traces.append(t)
         metas.append({"src": "rand", "rq": rq, "wk": wk, "app": ap})
+    real_exchanges(ctx, traces, metas)
     verdicts, stats = tlc.validate_batch("ResponseTrace", "ResponseTrace.cfg", traces, name="ResponseTrace_C02", chunk=5000)
     ctx.add_traces(len(traces), stats)
     for t, m, (v, step) in zip(traces, metas, verdicts):
@@ -286,6 +287,87 @@ def c02(ctx):
     ctx.assumptions += ["well-behaved application = declared Content-Length equals produced length, no body for HEAD/204/304",
                         "sockets are scripted in-process objects (sendfile emulated with os.pread); TLS not run",
                         "bytes -> response records by harness/oracle_wire.py (strict RFC 9112 response reader)"]
+
+
+def real_exchanges(ctx, traces, metas):
+    """the same programs on REAL servers of all four worker classes (real sockets, real sendfile, gevent / eventlet
+    hubs): raw bytes read by the strict response reader"""
+    import socket
+    from drivers import realproc as rp
+    from props.reload_real import _parallel
+    rng = ctx.rng
+    classes = ["sync", "gthread", "gevent"] if ctx.quick else ["sync", "gthread", "gevent", "eventlet"]
+    nper = 25 if ctx.quick else 150
+    progs = []
+    for wkc in classes:
+        lst = []
+        for _ in range(nper):
+            rq = {"ver": rng.choice([10, 11]), "head": rng.random() < 0.15, "conn": rng.choice(["none", "close", "keep"])}
+            status = rng.choice([200, 200, 201, 404, 204, 304])
+            prod = rng.choice(["iter", "write", "file", "filenofd"])
+            nobody = rq["head"] or status in (204, 304)
+            sizes = [] if nobody else [rng.choice([0, 0, 1, 2, 5, 100, 8192, 70000]) for _ in range(rng.randint(0, 4))]
+            off = rng.choice([0, 0, 1]) if prod in ("file", "filenofd") else 0
+            total = sum(sizes)
+            produced = max(0, total - off) if prod in ("file", "filenofd") else total
+            cl = NOCL if rng.random() < 0.5 else produced
+            lst.append((rq, {"status": status, "cl": cl, "prod": prod, "chunks": sizes, "off": off}))
+        progs.append((wkc, lst))
+
+    def one_server(item, i):
+        wkc, lst = item
+        s = rp.Server(wkc, workers=1, threads=2 if wkc == "gthread" else None, args=["--keep-alive", "2"], name="c02")
+        out = []
+        try:
+            s.start()
+            s.wait_booted(1)
+            for rq, ap in lst:
+                path = "/gen?prod=%s&sizes=%s&cl=%s&status=%d&off=%d" % (
+                    ap["prod"], ",".join(map(str, ap["chunks"])), "none" if ap["cl"] == NOCL else ap["cl"], ap["status"], ap["off"])
+                c = s.connect(timeout=8)
+                c.sendall(request_bytes(rq, uri=path))
+                wire, closed = b"", False
+                c.settimeout(1.2)
+                try:
+                    while True:
+                        d = c.recv(1 << 16)
+                        if not d:
+                            closed = True
+                            break
+                        wire += d
+                except socket.timeout:
+                    pass
+                except OSError:
+                    closed = True
+                c.close()
+                out.append((rq, ap, wire, closed))
+        finally:
+            s.cleanup()
+        return wkc, out
+    for wkc, out in _parallel(progs, one_server, par=4):
+        for rq, ap, wire, closed in out:
+            chunks = chunk_bytes(ap["chunks"])
+            produced = b"".join(chunks)
+            if ap["prod"] in ("file", "filenofd"):
+                produced = produced[ap["off"]:]
+            nobody = rq["head"] or ap["status"] in (204, 304)
+            expected = b"" if nobody else (produced[:ap["cl"]] if ap["cl"] != NOCL else produced)
+            recs = oracle_wire.read_responses(wire, closed, ["HEAD" if rq["head"] else "GET"])
+            f = recs[0] if recs else {"wellformed": False}
+            if f.get("wellformed"):
+                junk = sum(x.get("junk", 0) for x in recs[1:]) + sum(1 for x in recs[1:] if x.get("wellformed")) + f.get("junk", 0)
+                ev = [{"e": "resp", "wellformed": True, "nresp": sum(1 for x in recs if x.get("wellformed")), "junk": junk,
+                       "status": f["status"], "conn": f["conn"], "te": f["te"], "cl": f["cl"], "mode": f["mode"],
+                       "chunks": f["chunks"], "body": len(f["body"]), "bodymatch": f["body"] == expected,
+                       "complete": bool(f["complete"])}]
+            else:
+                ev = [{"e": "resp", "wellformed": False, "nresp": 0, "junk": len(wire), "status": 0, "conn": "none", "te": False,
+                       "cl": -1, "mode": "none", "chunks": [], "body": 0, "bodymatch": False, "complete": False}]
+            ev.append({"e": "after", "open": not closed})
+            traces.append({"rq": rq, "app": {"status": ap["status"], "cl": -1 if ap["cl"] == NOCL else ap["cl"], "total": len(produced),
+                                              "wb": True, "fail": "none", "started": False}, "wk": wkc, "ev": ev})
+            metas.append({"src": "real", "rq": rq, "wk": {"kind": wkc}, "app": ap})
+    ctx.coverage["real_process_exchanges"] = sum(len(l) for _, l in progs)
 
 
 def replay(ctx, data):
